@@ -134,6 +134,21 @@ func makeDoc(sp docSpec) []byte {
 		ws.Write(jpegBytes())
 		mustNil(ws.Close())
 	}
+	if sp.dct {
+		// a CCITTFax image as well (Group 4 and Group 3)
+		for _, k := range []int{-1, 0} {
+			ir := w.Alloc()
+			ws, err := w.OpenStream(ir, pdf.Dict{
+				"Type": pdf.Name("XObject"), "Subtype": pdf.Name("Image"), "Width": pdf.Integer(64), "Height": pdf.Integer(16),
+				"ColorSpace": pdf.Name("DeviceGray"), "BitsPerComponent": pdf.Integer(1),
+			}, pdf.FilterCCITTFax{K: k, Columns: 64, Rows: 16})
+			mustNil(err)
+			for row := 0; row < 16; row++ {
+				ws.Write([]byte{0xFF, byte(row), 0x0F, 0xF0, 0x00, byte(row * 3), 0xAA, 0x55})
+			}
+			mustNil(ws.Close())
+		}
+	}
 	if sp.badFont {
 		// a Type 1 font dictionary whose font program is not a font
 		ff := w.Alloc()
